@@ -24,7 +24,7 @@ import coqlit as L
 ID = "C17"
 COQ_PROPERTY_FILE = "Properties/C17.v"
 COQ_DEPS = ["Common/ListX.v", "Common/ObsHash.v", "Generated/Tables.v", "Model/Computed.v", "Proofs/ComputedProofs.v",
-            "Proofs/ComputedBridge.v"]
+            "Proofs/ComputedBridge.v", "Proofs/ComputedKill.v"]
 COQ_IMPORTS = "From Mesa Require Import Model.Computed."
 COQ_CASE_TYPE = "case"
 COQ_RUN = "run_case"
